@@ -18,7 +18,11 @@ def group_simulations(calls, num_mc, eta, warning_level, detect_level):
     for c in calls:
         if c[0] != "binomial":
             continue
-        per_thread.setdefault(c[3], []).append(c)
+        a, kw = c[1], dict(c[2])
+        for j, key in enumerate(("n", "p", "size")):   # accept positional arguments too
+            if key not in kw and len(a) > j:
+                kw[key] = a[j]
+        per_thread.setdefault(c[3], []).append((c[0], a, kw, c[3], c[4]))
     sims = []
     for th, cs in per_thread.items():
         i = 0
